@@ -14,7 +14,7 @@ import (
 func init() {
 	Register(&Property{
 		ID:    "C37",
-		Floor: 110,
+		Floor: 128,
 		Clauses: "dnsmessage parsing safety as structure: reviewed panic-site inventory from Message.Unpack, every exported Parser method and the skip functions (compiler-unproven index sites only in the wire primitives, Name.unpack, skipName, OPT and SVCB unpackers), " +
 			"each message index/slice in those primitives dominated by a length test on the same offset; Name.unpack rejection inventory: offset >= len(msg), label end > len(msg), '.' inside a label, accumulated length + label >= nonEncodedNameMax before the label is appended, " +
 			"missing pointer byte, more than 10 pointers (no further message access and no success afterwards), reserved 0x40/0x80 prefixes; Name.Length is the length of the assembled name; " +
@@ -66,12 +66,12 @@ func c37(c *Ctx) {
 	for _, f := range []string{un, dm + "skipName", dm + "unpackBytes", dm + "unpackText", dm + "unpackUint16", dm + "unpackUint32"} {
 		c.IndexGuarded(f, "$0")
 	}
-	c.ErrChecked_h3dns(dm+"unpackOPTResource", Calls(dm+"unpackUint16"), 2, Union(Indexing("$0"), RetOK()))
-	c.ErrChecked_h3dns(dm+"unpackSVCBResource", Calls(dm+"unpackUint16"), 2, Union(Indexing("$0"), RetOK()))
+	c.ErrChecked(dm+"unpackOPTResource", Calls(dm+"unpackUint16"), 2, Union(Indexing("$0"), RetOK()))
+	c.ErrChecked(dm+"unpackSVCBResource", Calls(dm+"unpackUint16"), 2, Union(Indexing("$0"), RetOK()))
 	if fn := c.MustFn(dm + "unpackSVCBResource"); fn != nil {
 		// msg[off:][:size] only when len(msg[off:]) >= size
 		var inner *ssa.Slice
-		EachInstr_h3dns(fn, func(in ssa.Instruction) {
+		ForEachInstr(fn, func(in ssa.Instruction) {
 			if s, ok := in.(*ssa.Slice); ok {
 				if _, nested := s.X.(*ssa.Slice); nested && s.High != nil {
 					inner = s
@@ -84,7 +84,7 @@ func c37(c *Ctx) {
 			// a dominating test compares len(msg[off:]) (same msg, same off) with the same size value
 			outer := inner.X.(*ssa.Slice)
 			okFact := false
-			EachInstr_h3dns(fn, func(in ssa.Instruction) {
+			ForEachInstr(fn, func(in ssa.Instruction) {
 				ifi, ok := in.(*ssa.If)
 				if !ok {
 					return
@@ -101,7 +101,7 @@ func c37(c *Ctx) {
 				if !ok || sl.X != outer.X || sl.Low != outer.Low || sl.High != nil {
 					return
 				}
-				if stripConv_h3dns(bo.Y) != stripConv_h3dns(inner.High) {
+				if stripConv(bo.Y) != stripConv(inner.High) {
 					return
 				}
 				// the slice is only reached on the false edge
@@ -115,7 +115,7 @@ func c37(c *Ctx) {
 	if fn := c.MustFn(dm + "unpackOPTResource"); fn != nil {
 		// a short copy (option data crossing the end of the message) is refused
 		spec := ""
-		EachInstr_h3dns(fn, func(in ssa.Instruction) {
+		ForEachInstr(fn, func(in ssa.Instruction) {
 			if ifi, ok := in.(*ssa.If); ok {
 				a := CondAtom(ifi.Cond)
 				for t := range a.L.Coef {
@@ -139,7 +139,7 @@ func c37(c *Ctx) {
 	if fn := c.MustFn(un); fn != nil {
 		var cur, name, ptr string
 		var labelAppend ssa.Instruction
-		EachInstr_h3dns(fn, func(in ssa.Instruction) {
+		ForEachInstr(fn, func(in ssa.Instruction) {
 			switch x := in.(type) {
 			case *ssa.IndexAddr:
 				if cur == "" && Term(x.X) == "$0" {
@@ -157,7 +157,7 @@ func c37(c *Ctx) {
 		ptrLimit := int64(0)
 		if cur != "" {
 			// pointer counter: the loop-carried value compared with a positive constant inside the pointer case
-			EachInstr_h3dns(fn, func(in ssa.Instruction) {
+			ForEachInstr(fn, func(in ssa.Instruction) {
 				ifi, ok := in.(*ssa.If)
 				if !ok || !c.P.HoldsAt(in, "($0["+cur+"]&192) == 192", true) {
 					return
@@ -187,7 +187,7 @@ func c37(c *Ctx) {
 			c.Guard(un, app, "("+L+"&192) == 0", L+" != 0")
 			// '.' inside a label
 			dot := ""
-			EachInstr_h3dns(fn, func(in ssa.Instruction) {
+			ForEachInstr(fn, func(in ssa.Instruction) {
 				if ifi, ok := in.(*ssa.If); ok {
 					a := CondAtom(ifi.Cond)
 					if (a.Kind == EQ || a.Kind == NE) && (a.L.K == -46 || a.L.K == 46) && len(a.L.Coef) == 1 {
@@ -209,7 +209,7 @@ func c37(c *Ctx) {
 			c.Reject(un, RetOK(), "("+L+"&192) != 0", "("+L+"&192) != 192")
 			c.NeverAfter(un, c.EdgeWhere(cur+"+1 >= len($0)", "("+L+"&192) == 192"), Union(RetOK(), Indexing("$0")), true)
 			c.Count(un, c.EdgeWhere(cur+"+1 >= len($0)", "("+L+"&192) == 192"), 1, 1)
-			c.Between(un, c.Edge("("+L+"&192) == 192"), Union(RetOK(), Indexing("$0").Where("next label byte", func(in ssa.Instruction) bool {
+			c.PassBetween(un, c.Edge("("+L+"&192) == 192"), Union(RetOK(), Indexing("$0").Where("next label byte", func(in ssa.Instruction) bool {
 				ia, ok := in.(*ssa.IndexAddr)
 				return ok && Linearize(ia.Index).String() == cur
 			})), c.TestOf(fmt.Sprintf("%s >= %d", ptr, ptrLimit)), false)
@@ -249,7 +249,7 @@ func c37(c *Ctx) {
 	c.TokSeqAgree(P+"Question", P+"SkipQuestion", rv, skipV)
 	sr := dm + "skipResource"
 	for callee, idx := range map[string]int{dm + "skipName": 1, dm + "skipType": 1, dm + "skipClass": 1, dm + "skipUint32": 1, dm + "unpackUint16": 2} {
-		c.ErrChecked_h3dns(sr, Calls(callee), idx, RetOK())
+		c.ErrChecked(sr, Calls(callee), idx, RetOK())
 	}
 	if fn := c.MustFn(sr); fn != nil {
 		if oks := RetOK().F(c.P, fn); len(oks) == 1 {
@@ -263,7 +263,7 @@ func c37(c *Ctx) {
 	// skipName mirrors Name.unpack's tests
 	if fn := c.MustFn(dm + "skipName"); fn != nil {
 		cur := ""
-		EachInstr_h3dns(fn, func(in ssa.Instruction) {
+		ForEachInstr(fn, func(in ssa.Instruction) {
 			if x, ok := in.(*ssa.IndexAddr); ok && cur == "" && Term(x.X) == "$0" {
 				cur = Linearize(x.Index).String()
 			}
@@ -283,8 +283,8 @@ func c37(c *Ctx) {
 	ps := P + "skipResource"
 	c.Reject(ps, Stores(dm+"Parser.off").StoredIs("($r.off+$r.resHeaderLength)"), "$r.off+$r.resHeaderLength > len($r.msg)")
 	c.Guard(ps, Stores(dm+"Parser.off").StoredIs("($r.off+$r.resHeaderLength)"), "$r.resHeaderValid", "$r.section == $0")
-	c.ErrChecked_h3dns(ps, Calls(P+"checkAdvance"), -1, Union(Calls(sr), RetOK()))
-	c.ErrChecked_h3dns(ps, Calls(sr), 1, RetOK())
+	c.ErrChecked(ps, Calls(P+"checkAdvance"), -1, Union(Calls(sr), RetOK()))
+	c.ErrChecked(ps, Calls(sr), 1, RetOK())
 	c.Count(ps, Calls(sr).ArgIs(0, "$r.msg").ArgIs(1, "$r.off"), 1, 1)
 	c.Before(ps, Stores(dm+"Parser.index"), RetOK())
 
@@ -304,9 +304,9 @@ func c37(c *Ctx) {
 		}
 	}
 	// every path tests checkAdvance before reading
-	c.ErrChecked_h3dns(P+"Question", Calls(ca), -1, Union(Calls(un), RetOK()))
-	c.ErrChecked_h3dns(P+"SkipQuestion", Calls(ca), -1, Union(Calls(dm+"skipName"), RetOK()))
-	c.ErrChecked_h3dns(P+"resourceHeader", Calls(ca), -1, Union(Calls("(*"+dm+"ResourceHeader).unpack"), RetOK()))
+	c.ErrChecked(P+"Question", Calls(ca), -1, Union(Calls(un), RetOK()))
+	c.ErrChecked(P+"SkipQuestion", Calls(ca), -1, Union(Calls(dm+"skipName"), RetOK()))
+	c.ErrChecked(P+"resourceHeader", Calls(ca), -1, Union(Calls("(*"+dm+"ResourceHeader).unpack"), RetOK()))
 	c.Count(P+"Question", Calls(ca).ArgIs(1, sections["Questions"]), 1, 1)
 	c.Count(P+"SkipQuestion", Calls(ca).ArgIs(1, sections["Questions"]), 1, 1)
 	for _, f := range []string{"Question", "SkipQuestion"} {
@@ -314,13 +314,13 @@ func c37(c *Ctx) {
 		c.Before(P+f, Stores(dm+"Parser.off"), RetOK())
 	}
 	for callee, idx := range map[string]int{un: 1, dm + "unpackType": 2, dm + "unpackClass": 2} {
-		c.ErrChecked_h3dns(P+"Question", Calls(callee), idx, Union(Stores(dm+"Parser.off"), RetOK()))
+		c.ErrChecked(P+"Question", Calls(callee), idx, Union(Stores(dm+"Parser.off"), RetOK()))
 	}
 	for callee, idx := range map[string]int{dm + "skipName": 1, dm + "skipType": 1, dm + "skipClass": 1} {
-		c.ErrChecked_h3dns(P+"SkipQuestion", Calls(callee), idx, Union(Stores(dm+"Parser.off"), RetOK()))
+		c.ErrChecked(P+"SkipQuestion", Calls(callee), idx, Union(Stores(dm+"Parser.off"), RetOK()))
 	}
 	rh := P + "resourceHeader"
-	c.ErrChecked_h3dns(rh, Calls("(*"+dm+"ResourceHeader).unpack"), 1, Union(Stores(dm+"Parser.resHeaderValid"), RetOK()))
+	c.ErrChecked(rh, Calls("(*"+dm+"ResourceHeader).unpack"), 1, Union(Stores(dm+"Parser.resHeaderValid"), RetOK()))
 	c.Count(rh, Stores(dm+"Parser.off").Where("value = offset returned by ResourceHeader.unpack", func(in ssa.Instruction) bool {
 		return resultOf(in.(*ssa.Store).Val, 0, "(*"+dm+"ResourceHeader).unpack")
 	}), 1, 1)
@@ -328,8 +328,8 @@ func c37(c *Ctx) {
 	c.Count(rh, Stores(dm+"Parser.resHeaderLength"), 1, 1)
 	c.Count(rh, Stores(dm+"Parser.resHeaderType"), 1, 1)
 	rs := P + "resource"
-	c.ErrChecked_h3dns(rs, Calls(rh), 1, Union(Calls(dm+"unpackResourceBody"), RetOK()))
-	c.ErrChecked_h3dns(rs, Calls(dm+"unpackResourceBody"), 2, Union(Stores(dm+"Parser.index"), RetOK()))
+	c.ErrChecked(rs, Calls(rh), 1, Union(Calls(dm+"unpackResourceBody"), RetOK()))
+	c.ErrChecked(rs, Calls(dm+"unpackResourceBody"), 2, Union(Stores(dm+"Parser.index"), RetOK()))
 	c.Count(rs, Stores(dm+"Parser.off").Where("value = offset returned by unpackResourceBody", func(in ssa.Instruction) bool {
 		return resultOf(in.(*ssa.Store).Val, 1, dm+"unpackResourceBody")
 	}), 1, 1)
@@ -346,7 +346,7 @@ func c37(c *Ctx) {
 	c.Callers(ca, P+"Question", P+"SkipQuestion", rh, ps)
 	// Start and Unpack
 	st := P + "Start"
-	c.ErrChecked_h3dns(st, Calls("(*"+dm+"header).unpack"), 1, Union(Stores(dm+"Parser.section"), RetOK()))
+	c.ErrChecked(st, Calls("(*"+dm+"header).unpack"), 1, Union(Stores(dm+"Parser.section"), RetOK()))
 	c.Count(st, Stores(dm+"Parser.section").StoredIs(sections["Questions"]), 1, 1)
 	c.Count(st, Calls("(*"+dm+"header).unpack").ArgIs(1, "$0").ArgIs(2, "0"), 1, 1)
 	mu := "(*" + dm + "Message).Unpack"
@@ -354,7 +354,7 @@ func c37(c *Ctx) {
 		seq := c.P.PrimSeq(fn, map[string]string{st: "start", P + "AllQuestions": "questions", P + "AllAnswers": "answers", P + "AllAuthorities": "authorities", P + "AllAdditionals": "additionals"})
 		c.Check(strings.Join(seq, " ") == "start questions answers authorities additionals", "call-order", mu+": Start, AllQuestions, AllAnswers, AllAuthorities, AllAdditionals", fn.Pos(), "", "order is ["+strings.Join(seq, " ")+"]")
 		for callee := range map[string]bool{st: true, P + "AllQuestions": true, P + "AllAnswers": true, P + "AllAuthorities": true, P + "AllAdditionals": true} {
-			c.ErrChecked_h3dns(mu, Calls(callee), 1, RetOK())
+			c.ErrChecked(mu, Calls(callee), 1, RetOK())
 		}
 	}
 
